@@ -44,9 +44,10 @@ func (f *aesHKDF) Read(p []byte) (int, error) {
 	// Fill the rest of the buffer
 	for len(p) > 0 {
 		inputSize := len(f.prev) + len(f.info) + 1
-		x := inputSize % aes.BlockSize
-		if x > 0 {
-			inputSize += aes.BlockSize - x
+		pad := 0 // zero padding to a block multiple, none if already aligned
+		if x := inputSize % aes.BlockSize; x > 0 {
+			pad = aes.BlockSize - x
+			inputSize += pad
 		}
 
 		if cap(f.buf) < inputSize {
@@ -56,7 +57,7 @@ func (f *aesHKDF) Read(p []byte) (int, error) {
 		f.buf = append(f.buf[:0], f.prev...)
 		f.buf = append(f.buf, f.info...)
 		f.buf = append(f.buf, f.counter)
-		f.buf = append(f.buf, fixedIV[:aes.BlockSize-x]...)
+		f.buf = append(f.buf, fixedIV[:pad]...)
 
 		mode := cipher.NewCBCEncrypter(f.block, fixedIV)
 		mode.CryptBlocks(f.buf, f.buf)
